@@ -166,7 +166,26 @@ class GVec:
         return self._bin(o, lambda a, c: a / c, lambda t, c: t / c)
 
     def __getitem__(self, i):
+        if isinstance(i, slice) and i.step is None and (i.start is None or isinstance(i.start, int)) and (i.stop is None or isinstance(i.stop, int)):
+            lo_, hi_ = i.start or 0, i.stop
+            if lo_ < 0 or (hi_ is not None and hi_ < 0) or lo_ > 3 or (hi_ is not None and hi_ > 3):
+                raise Untranslatable("slice of a symbolic-length vector with bounds other than small non-negative constants")
+            head = lambda k: sum((self.f(z3.IntVal(q)) for q in range(k)), z3.RealVal(0))  # noqa: E731
+            if hi_ is None:  # v[lo:]
+                return GVec(self.n - lo_, lambda j: self.f(j + lo_), (self.total - head(lo_)) if self.total is not None else None)
+            return GVec(z3.IntVal(hi_ - lo_), lambda j: self.f(j + lo_), head(hi_) - head(lo_))  # assumes hi <= n (checked by the caller's path: n >= 1)
         return SV(self.f(lift(i)))
+
+    @staticmethod
+    def concat(parts, axis=0):
+        parts = list(parts)
+        if not all(isinstance(p_, GVec) for p_ in parts):
+            raise Untranslatable("concatenate of non-vectors")
+        out = parts[0]
+        for nxt in parts[1:]:
+            a, b = out, nxt
+            out = GVec(a.n + b.n, lambda j, a=a, b=b: z3.If(j < a.n, a.f(j), b.f(j - a.n)), (a.total + b.total) if (a.total is not None and b.total is not None) else None)
+        return out
 
     @property
     def at(self):
@@ -208,7 +227,7 @@ def knots(ctx):
         a, b = (to_real(lift(c)) for c in constant_values)
         return GVec(v.n + 2, lambda i: z3.If(i == 0, a, z3.If(i == v.n + 1, b, v.f(i - 1))), None)
 
-    it.lib.overrides.update({"jax.nn.softmax": softmax, "jax.numpy.cumsum": cumsum, "jax.numpy.pad": pad})
+    it.lib.overrides.update({"jax.nn.softmax": softmax, "jax.numpy.cumsum": cumsum, "jax.numpy.pad": pad, "jax.numpy.concatenate": GVec.concat, "jax.numpy.hstack": GVec.concat})
     fn = it.repo_function(fnq)
     arr = GVec(K, lambda i: z3.Select(z3.Array("raw", I, R), i), None)
     paths = it.explore(lambda: fn(arr, (SV(lo), SV(hi)), SV(adj)))
